@@ -204,17 +204,17 @@ func parseAns(s string) (mstate, error) {
 var qEngine *nbhttp.Engine
 
 type qcase struct {
-	Kind     string  `json:"kind"` // random | admission-grid
-	Mode     string  `json:"mode"`
-	MaxQ     int     `json:"BlockingModSendQueueMaxSize"`
-	Compress bool    `json:"write_compression"`
-	Level    int     `json:"compression_level"`
-	Seed     int64   `json:"seed"`
+	Kind     string   `json:"kind"` // random | admission-grid
+	Mode     string   `json:"mode"`
+	MaxQ     int      `json:"BlockingModSendQueueMaxSize"`
+	Compress bool     `json:"write_compression"`
+	Level    int      `json:"compression_level"`
+	Seed     int64    `json:"seed"`
 	Ops      []string `json:"ops"`
-	Msgs     []*qmsg `json:"messages"`
-	Slow     bool    `json:"slow_settle,omitempty"`
+	Msgs     []*qmsg  `json:"messages"`
+	Slow     bool     `json:"slow_settle,omitempty"`
 	Wire     []string `json:"frames_handed_to_the_socket"`
-	Model    string  `json:"model_final,omitempty"`
+	Model    string   `json:"model_final,omitempty"`
 }
 
 type qproblem struct {
@@ -329,8 +329,8 @@ func runQueueCase(m *hx.Model, seed int64, slow bool, grid *gridPoint) (qc qcase
 	}
 	// the drainer (or, in direct mode, the writer) must now be entering Conn.Write with exactly this frame
 	var pending []byte
-	held := false          // a Conn.Write is blocked on the harness's verdict; its frame is [pending]
-	var stray []byte       // a Conn.Write the model did not expect, not yet answered
+	held := false    // a Conn.Write is blocked on the harness's verdict; its frame is [pending]
+	var stray []byte // a Conn.Write the model did not expect, not yet answered
 	expectWrite := func(want int, why string) bool {
 		mm := msgs[want/100]
 		exp := mm.frame(want % 100)
